@@ -79,6 +79,7 @@ def main():
                 t0 = time.time()
                 rc, o = sh('./check %s --tier quick' % c, cwd=VERIF, timeout=3000, env=env)
                 lines = [l for l in o.splitlines() if l.startswith('VIOLATION') or l.startswith('  entry=') or l.startswith('INCONCLUSIVE') or l.startswith('KNOWN')]
+                lines.sort(key=lambda l: 0 if l.startswith('VIOLATION') else 1 if l.startswith('  entry=') else 2)      # (stable: each VIOLATION line is followed by its detail line)
                 res[c] = {'exit': rc, 'seconds': round(time.time() - t0, 1), 'lines': [l[:300] for l in lines[:4]]}
             out['checks'] = res
             out['detected_by'] = [c for c, r in res.items() if r['exit'] == 1]
